@@ -377,7 +377,7 @@ class Reject(Exception):
     pass
 
 
-def make_ops(ctl, ctlval=None):
+def make_ops(ctl, ctlval=None, ctl2='ctl2'):
     """
     -> (ops, names).  op = (name, build(f) -> filter, ref(dict) -> dict; may raise KeyError/Reject)
     ctl: control block (or its name) for add_output; ctlval: one-element list with its output.
@@ -446,6 +446,11 @@ def make_ops(ctl, ctlval=None):
         ("modify('c',+10)", lambda f: f.modify('c', plus10), r_modify('c', plus10)),
         ("add_output('b',ctl)", lambda f: f.add_output('b', ctl),
          lambda d: {**d, 'b': ctlval[0]}),
+        # the same key once more, from another block (chains: add_output, rename / copy, add_output)
+        ("add_output('b',ctl2)", lambda f: f.add_output('b', ctl2),
+         lambda d: {**d, 'b': 50}),
+        # a result that is equal to the old value but not the same (1 -> 1.0)
+        ("modify('a',float)", lambda f: f.modify('a', float), r_modify('a', float)),
     ]
     return ops, [o[0] for o in ops]
 
@@ -496,16 +501,22 @@ def eval_filter(flt, d):
 
 
 def same_result(got, exp):
-    return got[0] == exp[0] and (got[0] != 'ok' or got[1] == exp[1])
+    if got[0] != exp[0]:
+        return False
+    if got[0] != 'ok':
+        return True
+    # equal dictionaries whose values are also of the same type (1 is not 1.0)
+    return got[1] == exp[1] and all(type(got[1][k]) is type(exp[1][k]) for k in exp[1])
 
 
 def run_dataedit(cfg, acc):
     inputs = input_dicts()
     with Sim() as sim:
         ctl = edzed.Input('ctl', initdef=5)
+        ctl2 = edzed.Input('ctl2', initdef=50)
         ctlval = [5]
-        ops, names = make_ops(ctl, ctlval)
-        ops_n, _ = make_ops('ctl', ctlval)      # add_output by name
+        ops, names = make_ops(ctl, ctlval, ctl2)
+        ops_n, _ = make_ops('ctl', ctlval, 'ctl2')      # add_output by name
         depth = cfg['depth']
         lead = [ops[cfg['first']]] if cfg['second'] is None else [ops[cfg['first']], ops[cfg['second']]]
         chains = []
@@ -561,6 +572,7 @@ def run_dataedit_pairs(cfg, acc):
     inputs = input_dicts()
     with Sim() as sim:
         ctl = edzed.Input('ctl', initdef=5)
+        edzed.Input('ctl2', initdef=50)
         ops, _names = make_ops(ctl, [5])
         sel = [0, 3, 5, 8, 11, 14, 17, 19, 22]
         chains = [[ops[i]] for i in sel] + [[ops[i], ops[j]] for i in sel for j in sel]
@@ -607,6 +619,7 @@ def run_dataedit_pipe(cfg, acc):
     with Sim() as sim:
         probe = Probe('probe', log=log)
         ctl = edzed.Input('ctl', initdef=5)
+        edzed.Input('ctl2', initdef=50)
         src = edzed.Input('src', initdef=0)
         ops, _names = make_ops('ctl', [5])
         chains = [[o] for o in ops] + [[o1, o2] for o1 in ops for o2 in ops]
